@@ -17,7 +17,7 @@ for a in sys.argv[3:]:
 job = dict(pkg=chk.PKGDIR[pk], harness=h, params=params, **extra)
 json.dump([job], open(sc + "/j.json", "w"))
 chk.build_engine()
-subprocess.run([chk.VERIF + "/bin/gosymex", "run", "-overlay", eng, "-jobs", sc + "/j.json", "-out", sc + "/r.json"] + flags, env=chk.GOENV)
+subprocess.run([chk.VERIF + "/bin/gosymex", "run", "-repo", chk.REPO, "-overlay", eng, "-jobs", sc + "/j.json", "-out", sc + "/r.json"] + flags, env=chk.GOENV)
 r = json.load(open(sc + "/r.json"))["results"][0]
 print("ends", r["stats"]["path_ends"], "notes", r["notes"], "err", (r.get("error") or "")[:2000])
 for v in (r["violations"] or [])[:6]:
